@@ -9,6 +9,9 @@ CLAIMED = {
  "C03": ("Deductive proof (govc: VCs generated from go/ssa of /repo, discharged by z3/cvc5) of the parts of the property that are this repository's code: PKCS#7 pad/unpad against RFC 5652 as quantified postconditions. Primitive ciphers are assumed contracts.",
          "Assumes: libspec contracts of the standard library (listed in evidence trusted_base), govc's SSA->SMT encoding, solver soundness. Interop with independent implementations is reduced to 'code equals the spec functions'.",
          "DESIGN.md §6 C03"),
+ "C16": ("Deductive proof that the stream wrappers implement the io.Reader contract over the right abstract content for every source satisfying that contract (universally quantified (n, err) answers = every chunking): limit, EOF/ErrStreamTooLarge discrimination, close-once bookkeeping.",
+         "Assumes the io.Reader/io.Closer/io.Writer contracts in /verif/libspec/io.spec (ghost content/position/close-count per interface value), distinct source objects, govc's encoding, solver soundness.",
+         "DESIGN.md §6 C16"),
  "C17": ("Deductive proof of frame obligations: every store, copy, in-place append and callee effect in the functions under contract targets memory allocated in the same activation or listed in the modifies clause (empty for these helpers); spare capacity is part of the goal.",
          "Assumes the frame clauses of library callees in /verif/libspec, govc's encoding, solver soundness.",
          "DESIGN.md §6 C17"),
